@@ -325,6 +325,10 @@ def impl_readspec(tree, req):
         # fiber=None: plate vectors are arrays (the documented type; a list has no .shape for number_of_fibers)
         a_plate = _arg(req['plate'], req.get('arr') or ('i4' if req['fiber'] is None else False))
         a_mjd, a_fiber = _arg(req['mjd'], req.get('arr')), _arg(req['fiber'], req.get('arr'))
+        if req.get('fiber_dt') and isinstance(req['fiber'], list) and req['fiber'] and \
+                all(0 <= f <= np.iinfo(req['fiber_dt']).max for f in req['fiber']):
+            # the caller's own (narrow) integer type for the fibre numbers: the same request (seeded change C16-20)
+            a_fiber = np.array(req['fiber'], dtype=req['fiber_dt'])
         snap = [np.array(v, copy=True) if isinstance(v, np.ndarray) else v for v in (a_plate, a_mjd, a_fiber)]
         r = readspec(a_plate, mjd=a_mjd, fiber=a_fiber, **kw)
         for name, v, w in zip(('plate', 'mjd', 'fiber'), (a_plate, a_mjd, a_fiber), snap):
@@ -608,6 +612,8 @@ def gen_requests(ctx, tree, count):
             # znum=: the znum-th fit of spZall; now and then a fit that does not exist (outside the statement, model follows)
             r['znum'] = rng.randint(1, nper) if rng.random() < 0.85 else rng.choice([0, -1, nper + 1, nper + 2, -nper, 50])
             conv += '+znum'
+            if isinstance(r.get('fiber'), list) and rng.random() < 0.5:
+                r['fiber_dt'] = rng.choice(['u1', 'u1', 'i2', 'u2'])
         out.append((conv, r))
     return out
 
